@@ -2,6 +2,7 @@ import Toodee.Driver.Run
 import Toodee.Spec.OpsSpec
 import Toodee.Spec.Seq
 import Toodee.Spec.Grid
+import Toodee.Driver.Json
 /-
   The operation-specific part of the property oracle `S`: what the *Spec* layer (the right-hand sides of the property
   theorems: `pos`, `viewSize`, `Seq`, `mapCells`/`updCells` with the cell functions of Spec/OpsSpec, the grid formulas of
@@ -270,7 +271,11 @@ def specDrainWord : List Nat → List String → List String → Option (List St
     | "b" => let (x, l') := Seq.nextBack l; specDrainWord l' rest (toks ++ [optPos x])
     | "l" => specDrainWord l rest (toks ++ [toString l.length])
     | "h" => specDrainWord l rest (toks ++ [s!"{l.length}:{l.length}"])
-    | _ => none
+    | _ =>
+      match (s.take 1).toString, (s.drop 1).toString.toNat? with
+      | "N", some k => let (x, l') := Seq.nth l k; specDrainWord l' rest (toks ++ [optPos x])
+      | "B", some k => let (x, l') := Seq.nthBack l k; specDrainWord l' rest (toks ++ [optPos x])
+      | _, _ => none
 
 /-- root-only operations: constructors (C20), conversions (C20), structural operations (C06, C07, C01) -/
 def specRootStep (cx : Ctx) (line : String) : Option SExp :=
@@ -358,6 +363,48 @@ def specRootStep (cx : Ctx) (line : String) : Option SExp :=
         else if isRow then pure (okState (if R = 1 then 0 else C) (R - 1) (data.take (i * C)) (some toks))
         else pure (okState (C - 1) (if C = 1 then 0 else R) ((toRows C data).map fun ρ => ρ.eraseIdx i).flatten (some toks))
     | _, _ => none
+  | _ => none
+
+/-- C18 / C19 on the root array: what the properties prescribe for the serde operations.
+    Returns failure reasons (empty = satisfied), or `none` if not judged. -/
+def specSerde (cx : Ctx) (line : String) (r : RObs) (parse : String → Option JVal) : Option (List String) :=
+  let data := cx.prev.data
+  let C := cx.prev.c
+  let R := cx.prev.r
+  match words line with
+  | "@" :: "roundtrip" :: [_] =>
+    -- C18: serialising and deserialising yields an array equal to the original
+    some (if r.status = "ok" ∧ r.toks = [toString C, toString R, fmtList data, "eq=1"] then [] else ["C18:roundtrip"])
+  | recv :: "roundtrip" :: [_] =>
+    -- a view: the owned copy of the view (`eq=1` is computed by the harness against `TooDee::from(view)`)
+    if recv.startsWith "@x" then none else
+    some (if r.status = "ok" ∧ r.toks.getLast? = some "eq=1" then [] else ["C18:roundtrip-view"])
+  | "@" :: "de" :: tr :: _ =>
+    let marker := s!" de {tr} "
+    match line.splitOn marker with
+    | _ :: rest =>
+      let text := marker.intercalate rest
+      if r.status ≠ "ok" then some ["C19:panicked"]
+      else if r.toks = ["err"] then some []          -- rejecting is always allowed by C19
+      else
+        -- accepted: the result must satisfy the shape invariant and be stated by the document; overflowing / mismatching /
+        -- one-zero documents must not be accepted (implied: the accepted dims multiply to the data length without overflow)
+        match r.toks, parse text with
+        | [c, rr, l], some (.obj kvs) =>
+          match c.toNat?, rr.toNat?, parseList l with
+          | some c, some rr, some l =>
+            let kvs := if tr = "value" then kvs else kvs
+            let okShape := decide (c * rr = l.length ∧ (c = 0 ↔ rr = 0) ∧ c * rr < WORD)
+            let hasC := kvs.any fun kv => kv.1 == "num_cols" && (match kv.2 with | .num n => n == c | _ => false)
+            let hasR := kvs.any fun kv => kv.1 == "num_rows" && (match kv.2 with | .num n => n == rr | _ => false)
+            let hasD := kvs.any fun kv => kv.1 == "data" && (match kv.2 with
+              | .arr xs => (xs.mapM fun x => match x with | .num n => some n | _ => none) == some (if cx.elem = .zst then l.map (fun _ => 0) else l) || cx.elem = .zst
+              | _ => false)
+            some ((if okShape then [] else ["C19:accepted-inconsistent-shape"]) ++
+                  (if hasC ∧ hasR ∧ hasD then [] else ["C19:result-not-stated-by-document"]))
+          | _, _, _ => some ["C19:unparsable-result"]
+        | _, _ => some ["C19:accepted-a-non-object-or-malformed-document"]
+    | _ => none
   | _ => none
 
 end Toodee.Driver
